@@ -263,7 +263,8 @@ def run(ctx):
         for m in parts[:2]:
             direct = sorted({d for ln in T[m] for d in ln["fs"] if d in T})
             # the same daughter lists once as nodes with decaying daughters and once (everything below kept stable) as plain final states
-            for S in ([], direct, r.sample(parts, 1)):
+            # ... in both orders: final-state role first (then again as node with sub-decays), and the other way round
+            for S in (([], direct, r.sample(parts, 1)) if (i + parts.index(m)) % 2 else (direct, [], r.sample(parts, 1), direct)):
                 if S == direct and direct:
                     ctx.hit("same-lists-in-both-node-roles")
                 real_chain = res[0].build_decay_chains(m, stable_particles=S)
